@@ -373,8 +373,16 @@ func par1(c *Ctx) {
 			}
 		} else if !isC {
 			// `return starters[p.token().Typ]`: a read-only package-level map from kinds to true
-			if lk, isLk := r.Results[0].(*ssa.Lookup); isLk && !lk.CommaOk {
-				if b, okF := fieldOf(lk.Index, "Typ"); okF && c.isNamed(b.Type(), "internal/lexer", "Token") {
+			res0 := r.Results[0]
+			if vs := ir.PhiValuesAt(res0, r.At); len(vs) == 1 {
+				res0 = vs[0] // handed up through the result variable of an inlined helper
+			}
+			if lk, isLk := res0.(*ssa.Lookup); isLk && !lk.CommaOk {
+				idxV := lk.Index
+				if vs := ir.PhiValuesAt(idxV, lk.Block()); len(vs) == 1 {
+					idxV = vs[0] // the result variable of an inlined peek helper: its one value here
+				}
+				if b, okF := fieldOf(idxV, "Typ"); okF && c.isNamed(b.Type(), "internal/lexer", "Token") {
 					if ld, isLd := lk.X.(*ssa.UnOp); isLd {
 						if g, isG := ld.X.(*ssa.Global); isG && readOnlyTable(c, g) == "" {
 							if ks, okK := mapTableTrueKeys(g); okK {
